@@ -166,3 +166,137 @@ Print Assumptions C11_real_child_contained.
 Theorem C11_run_meets_spec : forall s, valid s = true -> spec s (run s) = true.
 Proof. exact run_meets_spec. Qed.
 Print Assumptions C11_run_meets_spec.
+
+(* --------------------------------------------------------------------------------------------------------------
+   The separate-process runner of the model IS the source: GccPlatformSpecificRunTestInASeperateProcess as tools/cxx2gal.py regenerates it from UtestPlatform.cpp on every run (gen/Gen_LoopC11.v: fork(), getFailureCount() and waitpid() take the next value of ghost oracle streams, a waitpid outcome is (result, status, errno); addFailure / kill / _exit are ghost events; the status macros are glibc's, expanded by clang) does, on every stream of outcomes, what the model's parent_loop says: the same number of wait calls, the same failures in the same order (fail_events), one SIGCONT per stop, the retry counter and its bound (gives_up_src: a change of the bound or of the comparison breaks it), the fork-failure and child branches
+   -------------------------------------------------------------------------------------------------------------- *)
+From Coq Require Import String. From CppUVerif Require Import lib.CSem lib.CMem gen.Gen_LeafC11 gen.Gen_LoopC11 C11_Loop C11_SrcTie.
+Local Open Scope Z_scope.
+Theorem C11_leaf_SetTestFailureByStatusCode_tie :
+  forall w : N, leaf_SetTestFailureByStatusCode (Z.of_N w) = flat_map fail_events (set_failure_by_status w).
+Proof. exact leaf_SetTestFailureByStatusCode_tie. Qed.
+Print Assumptions C11_leaf_SetTestFailureByStatusCode_tie.
+
+Theorem C11_gives_up_src :
+  forall r : N, z2b (c_gt (Z.of_N r) 30) = gives_up r.
+Proof. exact gives_up_src. Qed.
+Print Assumptions C11_gives_up_src.
+
+Theorem C11_src_wait_loop_spec :
+  forall (fuel0 : nat) (mem : memory) (forks counts : list Z) (shell result : ptr) (ws : list wout)
+  (r : N) (pid : Z) (ts rest : list (Z * Z * Z)) (fuel : nat) (evs : list cevent)
+  (e0 w0 st0 : Z),
+  pid <> -1 ->
+  Forall2 (is_conc pid) ws ts ->
+  lr_end (parent_loop r ws) <> EndStreamOut ->
+  (Datatypes.length ws < fuel)%nat ->
+  src_runInSeparateProcess_loop1 fuel0 fuel mem forks counts shell result (-1) pid evs
+  (ts ++ rest) e0 w0 st0 (Z.of_N r) = loop_expected mem forks counts pid r ws ts rest evs e0 st0.
+Proof. exact src_wait_loop_spec. Qed.
+Print Assumptions C11_src_wait_loop_spec.
+
+Theorem C11_src_wait_loop_ends :
+  forall (fuel0 : nat) (mem : memory) (forks counts : list Z) (shell result : ptr) (ws : list wout)
+  (r : N) (pid : Z) (ts rest : list (Z * Z * Z)) (fuel : nat) (evs : list cevent)
+  (e0 w0 st0 : Z),
+  pid <> -1 ->
+  Forall2 (is_conc pid) ws ts ->
+  lr_end (parent_loop r ws) <> EndStreamOut ->
+  (Datatypes.length ws < fuel)%nat ->
+  let res := parent_loop r ws in
+  let out :=
+  src_runInSeparateProcess_loop1 fuel0 fuel mem forks counts shell result (-1) pid evs
+  (ts ++ rest) e0 w0 st0 (Z.of_N r) in
+  let evs' := evs ++ events_of_loop pid res ws in
+  let rem := skipn (lr_calls res) ts ++ rest in
+  (lr_end res = EndReaped -> exists e' st' r' : Z, out = Go (evs', rem, e', pid, st', r')) /\
+  (lr_end res = EndGaveUp \/ lr_end res = EndWaitErr ->
+  exists e' : Z, out = Done (tt, mem, evs', forks, counts, rem, e')) /\
+  filter is_kill (events_of_loop pid res ws) = repeat (ev_kill pid) (lr_conts res) /\
+  Datatypes.length (skipn (lr_calls res) ts) = (Datatypes.length ts - lr_calls res)%nat.
+Proof. exact src_wait_loop_ends. Qed.
+Print Assumptions C11_src_wait_loop_ends.
+
+Theorem C11_events_of_loop_tie :
+  forall (ws : list wout) (r : N) (pid : Z),
+  let res := parent_loop r ws in
+  let evs := events_of_loop pid res ws in
+  filter (fun e : cevent => negb (is_kill e)) evs = flat_map fail_events (lr_fails res) /\
+  filter is_kill evs = repeat (ev_kill pid) (lr_conts res) /\
+  count_addFailure evs = Datatypes.length (lr_fails res) /\
+  Forall (fun f : failure => match f with
+  | FFork | FCheck | FOther => False
+  | _ => True
+  end) (lr_fails res).
+Proof. exact events_of_loop_tie. Qed.
+Print Assumptions C11_events_of_loop_tie.
+
+Theorem C11_src_runInSeparateProcess_parent_spec :
+  forall (ws : list wout) (pid : Z) (ts rest : list (Z * Z * Z)) (fuel : nat) (mem : memory)
+  (evs : list cevent) (forks counts : list Z) (errno0 : Z) (shell plugin result : ptr),
+  pid > 0 ->
+  Forall2 (is_conc pid) ws ts ->
+  lr_end (parent_loop 0 ws) <> EndStreamOut ->
+  (Datatypes.length ws < fuel)%nat ->
+  let res := parent_loop 0 ws in
+  src_runInSeparateProcess fuel mem evs (pid :: forks) counts (ts ++ rest) errno0 shell plugin result =
+  FOk
+  (tt, mem, evs ++ events_of_loop pid res ws, forks, counts, skipn (lr_calls res) ts ++ rest,
+  errno_after errno0 (firstn (lr_calls res) ts)).
+Proof. exact src_runInSeparateProcess_parent_spec. Qed.
+Print Assumptions C11_src_runInSeparateProcess_parent_spec.
+
+Theorem C11_src_runInSeparateProcess_parent_model :
+  forall (ws : list wout) (pid : Z) (ts rest : list (Z * Z * Z)) (fuel : nat) (mem : memory)
+  (evs : list cevent) (forks counts : list Z) (errno0 : Z) (shell plugin result : ptr)
+  (real : bool),
+  pid > 0 ->
+  Forall2 (is_conc pid) ws ts ->
+  lr_end (parent_loop 0 ws) <> EndStreamOut ->
+  (Datatypes.length ws < fuel)%nat ->
+  let it := item_of_loop real (parent_loop 0 ws) in
+  exists (new : list cevent) (e' : Z),
+  src_runInSeparateProcess fuel mem evs (pid :: forks) counts (ts ++ rest) errno0 shell plugin result =
+  FOk (tt, mem, evs ++ new, forks, counts, skipn (i_calls it) ts ++ rest, e') /\
+  filter (fun e : cevent => negb (is_kill e)) new = flat_map fail_events (i_fails it) /\
+  count_addFailure new = Datatypes.length (i_fails it) /\
+  filter is_kill new = repeat (ev_kill pid) (lr_conts (parent_loop 0 ws)) /\
+  (real = false -> Datatypes.length (filter is_kill new) = i_conts it) /\
+  Forall (fun f : failure => match f with
+  | FFork | FCheck | FOther => False
+  | _ => True
+  end) (i_fails it).
+Proof. exact src_runInSeparateProcess_parent_model. Qed.
+Print Assumptions C11_src_runInSeparateProcess_parent_model.
+
+Theorem C11_src_runInSeparateProcess_fork_failed_spec :
+  forall (fuel : nat) (mem : memory) (evs : list cevent) (forks counts : list Z) (waits : list (Z * Z * Z))
+  (errno0 : Z) (shell plugin result : ptr),
+  src_runInSeparateProcess fuel mem evs (-1 :: forks) counts waits errno0 shell plugin result =
+  FOk (tt, mem, evs ++ [("addFailure:Call to fork() failed"%string, [])], forks, counts, waits, errno0).
+Proof. exact src_runInSeparateProcess_fork_failed_spec. Qed.
+Print Assumptions C11_src_runInSeparateProcess_fork_failed_spec.
+
+Theorem C11_src_runInSeparateProcess_child_spec :
+  forall (fuel : nat) (mem : memory) (evs : list cevent) (forks : list Z) (i f : Z)
+  (counts : list Z) (waits : list (Z * Z * Z)) (errno0 : Z) (shell plugin result : ptr),
+  src_runInSeparateProcess fuel mem evs (0 :: forks) (i :: f :: counts) waits errno0 shell plugin result =
+  FOk
+  (tt, mem, evs ++ [("runOneTestInCurrentProcess"%string, []); ("_exit"%string, [b2z (i <? f)])], forks,
+  counts, waits, errno0).
+Proof. exact src_runInSeparateProcess_child_spec. Qed.
+Print Assumptions C11_src_runInSeparateProcess_child_spec.
+
+Theorem C11_src_runInSeparateProcess_child_model :
+  forall (initial n : N) (fuel : nat) (mem : memory) (evs : list cevent) (forks counts : list Z)
+  (waits : list (Z * Z * Z)) (errno0 : Z) (shell plugin result : ptr),
+  child_final initial (FateDone n) = EvExit (if (initial <? initial + n)%N then 1%N else 0%N) /\
+  src_runInSeparateProcess fuel mem evs (0 :: forks) (Z.of_N initial :: Z.of_N (initial + n) :: counts) waits
+  errno0 shell plugin result =
+  FOk
+  (tt, mem,
+  evs ++
+  [("runOneTestInCurrentProcess"%string, []);
+  ("_exit"%string, [exit_code (child_final initial (FateDone n))])], forks, counts, waits, errno0).
+Proof. exact src_runInSeparateProcess_child_model. Qed.
+Print Assumptions C11_src_runInSeparateProcess_child_model.
